@@ -385,6 +385,31 @@ func (r *recorder) Write(p []byte) (int, error) {
 
 func (r *recorder) Flush() { r.flushes++ }
 
+// ReadFrom and WriteString are what net/http's own response writer offers besides Write (io.Copy and
+// io.WriteString pick them up): a wrapper that forwards them has to account for them like for Write.
+func (r *recorder) ReadFrom(src io.Reader) (int64, error) {
+	var total int64
+	buf := make([]byte, 512)
+	for {
+		n, rerr := src.Read(buf)
+		if n > 0 {
+			w, werr := r.Write(buf[:n])
+			total += int64(w)
+			if werr != nil {
+				return total, werr
+			}
+		}
+		if rerr == io.EOF {
+			return total, nil
+		}
+		if rerr != nil {
+			return total, rerr
+		}
+	}
+}
+
+func (r *recorder) WriteString(s string) (int, error) { return r.Write([]byte(s)) }
+
 func (n *Net) serve(cctx context.Context, data []byte, end error, ex *Exchange) *recorder {
 	br := bufio.NewReader(&chunkReader{n: n, data: data, end: end, tag: "net-read-req"})
 	sreq, err := http.ReadRequest(br)
